@@ -78,16 +78,18 @@ def method(spec, name):
 
 
 # ------------------------------------------------------------------------------------------------ walking a kernel
-def walk_kernel(name, fn, path, out_param=None):
-    """run one kernel method in generic mode; returns (wp, [(guard, result, env, facts)])"""
-    wp = EigWP(name)
-    wp.const('n', 'Int', 'long')
-    wp.assume('(>= n 0)')
+def walk_kernel(name, fn, path, out_param=None, n=None):
+    """run one kernel method in generic mode (n=None) or for n outputs; returns (wp, [(guard, result, env, facts)])"""
+    wp = EigWP(name, n=n)
+    nt = 'n' if n is None else str(n)
+    if n is None:
+        wp.const('n', 'Int', 'long')
+        wp.assume('(>= n 0)')
     for key, p in wp.bind_params(fn):
         if key in ('target', 'output'):
-            wp.input_array(key, key, 'n')
+            wp.input_array(key, key, nt)
         elif key == out_param:
-            wp.input_array(key, key + '0', 'n')
+            wp.input_array(key, key + '0', nt)
         else:
             raise Unsupported(f'{name}: unexpected parameter {key}')
     rets = []
@@ -167,10 +169,23 @@ def kernel_vcs(kernel, policy, spec, info, not_decided):
     fv, fg = method(spec, 'value'), method(spec, 'vgrad')
     info.append(fninfo(name + '::value', f'nano::detail::{kernel}<{policy}>::value', path, fv))
     info.append(fninfo(name + '::vgrad', f'nano::detail::{kernel}<{policy}>::vgrad', path, fg))
-    wv, rv = walk_kernel(name + '::value', fv, path)
-    wg, rg = walk_kernel(name + '::vgrad', fg, path, out_param='vgrad')
+    try:
+        wv, rv = walk_kernel(name + '::value', fv, path)
+        wg, rg = walk_kernel(name + '::vgrad', fg, path, out_param='vgrad')
+    except Unsupported as e:
+        if kernel != 'classnll_t':
+            raise
+        # e.g. a special case for one output that addresses element 0: no coordinate-wise reading for a symbolic number of outputs
+        not_decided.append(f'{name}: everything for a symbolic number of outputs ({e}); see the bounded obligations loss_classnll[..][n=1], [n=2]')
+        return [], {'convex': convex, 'smooth': smooth}
     if len(rv) != 1 or len(rg) != 1 or rv[0][0] != 'true' or rg[0][0] != 'true':
-        raise Unsupported(f'{name}: several return paths')
+        if kernel != 'classnll_t':
+            raise Unsupported(f'{name}: several return paths')
+        # classnll that treats special sizes separately: only the loop / index discipline of the walk is claimed for symbolic n
+        gen = Gen(wv.decls + [d for d in wg.decls if d not in wv.decls], length='n', tag=name)
+        not_decided.append(f'{name}: gradient == derivative, convexity, non-negativity for a symbolic number of outputs (several return paths)')
+        return gen.from_wp(wv, name + '::value', path, hyps=['(> n 0)']) + gen.from_wp(wg, name + '::vgrad', path, hyps=['(> n 0)']) + gen.lemmas, \
+            {'convex': convex, 'smooth': smooth}
     g = rg[0][2]['vgrad']
     if not isinstance(g, AV) or 'vgrad' not in getattr(wg, 'written', ()):
         raise Unsupported(f'{name}: vgrad does not write its output array')
@@ -522,3 +537,38 @@ def pinball_vcs(info, not_decided):
     vcs.append(gen.vc('pinball::error/the error of a sample is its loss value: the body is exactly value(targets, outputs, errors)', [],
                       'true' if ok else 'false', source={'file': path, 'line': fe.get('loc', {}).get('line')}))
     return vcs, flags
+
+
+def classnll_one_output_vcs(info, not_decided):
+    """BOUNDED: s-classnll with ONE output (binary problem; the targets +1 and -1 are both valid there: sclass_t::error has a branch for
+    it and test/test_loss.cpp `single_class` feeds every s-* loss exactly these targets): value >= 0 and gradient == d value / d output."""
+    (pol, spec), = [x for x in specialisations('classnll_t')][:1]
+    path = astload.REPO + '/' + FLATTEN
+    fv, fg = method(spec, 'value'), method(spec, 'vgrad')
+    name = f'loss_classnll[{pol[:-2]}][n=1]'
+    wv, rv = walk_kernel(name + '::value', fv, path, n=1)
+    wg, rg = walk_kernel(name + '::vgrad', fg, path, out_param='vgrad', n=1)
+    if len(rv) != 1 or len(rg) != 1:
+        raise Unsupported(f'{name}: several return paths for one output')
+    T, O = '|target@0|', '|output@0|'
+    valid = [('or', ('=', T, '1.0'), ('=', T, ('-', '1.0')))]           # pos_target() / neg_target()
+    gen = Gen(wv.decls + [d for d in wg.decls if d not in wv.decls], tag=name, hyps=valid + list(rv[0][3]) + [f for f in rg[0][3] if f not in rv[0][3]])
+    src = {'file': path, 'line': fv.get('loc', {}).get('line')}
+    vcs = gen.from_wp(wv, name + '::value', path) + gen.from_wp(wg, name + '::vgrad', path)
+    value = sx.parse(real_of(wv, rv[0][1]))
+    grad = sx.parse(rg[0][2]['vgrad'].c[0])
+    vcs.append(gen.vc(f'{name}/value >= 0 (one output, target +1 or -1)', [], ('>=', value, '0.0'), about='the loss of a sample is non-negative', source=src))
+    kk = sx.kinks(value, O)
+    vcs.append(gen.vc(f'{name}/gradient == d value / d output_0', [('not', ('=', a, b)) for a, b in kk], ('=', grad, sx.D(value, O)), source=src))
+    # two outputs: the loop / index discipline and defined divisions only (the epsilon inside the logarithm makes the calculus inexact)
+    name2 = f'loss_classnll[{pol[:-2]}][n=2]'
+    wv2, rv2 = walk_kernel(name2 + '::value', fv, path, n=2)
+    wg2, rg2 = walk_kernel(name2 + '::vgrad', fg, path, out_param='vgrad', n=2)
+    gen2 = Gen(wv2.decls + [d for d in wg2.decls if d not in wv2.decls], tag=name2)
+    vcs2 = gen2.from_wp(wv2, name2 + '::value', path) + gen2.from_wp(wg2, name2 + '::vgrad', path)
+    vcs2.append(gen2.vc(f'{name2}/vgrad writes both coefficients', [], 'true' if 'vgrad' in getattr(wg2, 'written', ()) and len(rg2) == 1 and
+                        all('|vgrad0@' not in c for c in rg2[0][2]['vgrad'].c) else 'false', source=src))
+    out = vcs + gen.lemmas + vcs2 + gen2.lemmas
+    for v in out:
+        v.bound = 'one / two outputs'
+    return out
